@@ -1,6 +1,6 @@
 import GMGProofs.Lemmas.CycleSpec
 /-!
-# Invariants of the textbook recursion `Cycle.cyc` over abstract operators
+# Invariants of the textbook recursion `MGCycle.cyc` over abstract operators
 core Lean only.
 * `cyc_inv`: if on every smoothing level the operators preserve a predicate `P l` on iterates (given a predicate `Q l` on
   right-hand sides), the coarsest-level solve maps `Q` to `P`, and residual + restriction map `(Q l, P l)` to `Q (l + 1)`,
@@ -8,7 +8,7 @@ core Lean only.
 * `cyc_shift`: on level 0 a relation `S` between iterates ("shifted by `w`") that the smoother respects (with the pair of
   right-hand sides `f`, `f'`), that makes the residuals EQUAL and that the correction step respects, is respected by one cycle.
 -/
-namespace Cycle
+namespace MGCycle
 variable {V : Type}
 
 /-- what the operators have to preserve; `c.levels - 1` is the coarsest level (direct solve), the levels below it smooth -/
@@ -84,4 +84,4 @@ theorem cyc_shift (o : Ops V) (c : Cfg) (k : Kind) (fuel : Nat) (f f' : V) (S : 
   rw [hres u1 u1' h1]
   exact iter_rel _ _ S hs _ _ _ (hadd _ _ _ h1 (hG u1 u1' h1))
 
-end Cycle
+end MGCycle
